@@ -427,7 +427,7 @@ def pr_verified_reg(v):
                      fw.wbool(v.credential_device_type.value == "multi_device"), fw.wbool(v.credential_backed_up)])
 
 
-def _x5c_fingerprints(cred_value):
+def _x5c_fingerprints(cred_value, only_fmt=None):
     import hashlib, json as _json, base64, cbor2
     try:
         if hasattr(cred_value, "response"):
@@ -436,7 +436,10 @@ def _x5c_fingerprints(cred_value):
             d = _json.loads(cred_value) if isinstance(cred_value, str) else cred_value
             t = d["response"]["attestationObject"]
             ao = base64.urlsafe_b64decode(t + "=" * (-len(t) % 4))
-        st = cbor2.loads(ao).get("attStmt", {})
+        top = cbor2.loads(ao)
+        if only_fmt is not None and top.get("fmt") != only_fmt:
+            return set()
+        st = top.get("attStmt", {})
         out = {hashlib.sha256(bytes(c)).hexdigest() for c in st.get("x5c", []) if isinstance(c, (bytes, bytearray))}
         return out
     except Exception:
@@ -457,7 +460,7 @@ def verify_reg(policy, cred_value):
                 for pem in lst:
                     if isinstance(pem, (bytes, bytearray, memoryview)):
                         allowed.add(pem_fingerprint(bytes(pem)))
-            allowed |= _x5c_fingerprints(cred_value)      # (android-key verifies against the chain's own last certificate and then looks that one up among the anchors)
+            allowed |= _x5c_fingerprints(cred_value, only_fmt="android-key")      # (android-key verifies against the chain's own last certificate and then looks that one up among the anchors)
             for store in ([] if None in allowed else STORE_LOG):      # (an RP entry the harness itself cannot read as one certificate: no verdict)
                 for fp, subj in store:
                     if fp not in allowed and not any(x["fingerprint"] == fp for x in FOREIGN_ANCHORS):
